@@ -31,6 +31,16 @@ inline void drop(Node* n) {
 	delete n;                                    // C11.no-alloc: delete
 }
 
+struct Gen {
+	unsigned s = 1;
+	unsigned draw() { s = s * 1664525u + 1013904223u; return s; }
+};
+inline unsigned pack(unsigned a, unsigned b) { return (a << 16) ^ b; }
+inline unsigned two_draws(Gen& g)   { return pack(g.draw(), g.draw()); }      // C10.sequenced: both arguments advance g, order unspecified
+inline unsigned sum_draws(Gen& g)   { return g.draw() - g.draw(); }           // C10.sequenced: both operands advance g
+inline unsigned ordered_draws(Gen& g) { const unsigned a = g.draw(); return pack(a, g.draw()); }   // allowed: separate statements
+inline bool     either(Gen& g)      { return g.draw() > 7u || g.draw() > 9u; }                     // allowed: || orders its operands
+
 inline int* many(unsigned k) {
 	return new int[k];                           // C11.no-alloc: array new
 }
@@ -47,5 +57,7 @@ int main() {
 	alignas(canary::Node) unsigned char buf[sizeof(canary::Node)];
 	canary::in_place(buf)->~Node();
 	delete[] canary::many(3);
+	canary::Gen g;
+	(void) (canary::two_draws(g) + canary::sum_draws(g) + canary::ordered_draws(g) + (canary::either(g) ? 1u : 0u));
 	return canary::next_id() + canary::g_counter + canary::g_tls;
 }
